@@ -150,7 +150,13 @@ def analyse(prop, spec, ops, model, impl, crashes):
         if ok_here:
             agreed += 1
         if a.get("strat") and a["strat"] != "-":
-            strat[a["strat"]] += 1
+            toks = a["strat"].split(",")
+            pre = [t for t in toks[1:] if t.startswith("prefilter_kind_")]
+            key = toks[0].replace("searcher_kind_", "")
+            if pre:
+                n = len(pre)
+                key += "+" + pre[0].replace("prefilter_kind_", "pre_") + ("x1" if n == 1 else "x2-5" if n <= 5 else "x6+")
+            strat[key] += 1
         try:
             if int(m.get("steps", "0")) >= 3:
                 nontrivial.add(line)
